@@ -27,6 +27,7 @@ theorems), never on the implementation's output:
 """
 import itertools
 import json
+import os
 import signal
 import time
 
@@ -686,6 +687,70 @@ def reachable_part(w):
     return [w[0], w[1], [e for e in w[2] if json.dumps(e[0]) in keep]]
 
 
+# ----------------------------------------------------------------------------- at_most_k: termination
+def uncounted_ranking(dsl, name):
+    """a ranking of the types (wire, rank) certifying PS.T.uncountedRanked - every primitive other than
+    `name` takes, at every slot (partial applications included), only arguments of smaller rank - or None
+    when the dependency graph of the types through those primitives has a cycle (then no certificate
+    exists: the classifier of finding C13-F9)"""
+    from synth.syntax.type_system import Arrow
+    edges, wires = {}, {}
+
+    def key(t):
+        w = W.ty_wire(t)
+        k = json.dumps(_plain(w))
+        wires[k] = w
+        edges.setdefault(k, set())
+        return k
+    for p in dsl.list_primitives:
+        if str(p) == name:
+            continue
+        t, acc = p.type, []
+        while True:
+            k = key(t)
+            edges[k].update(key(a) for a in acc)
+            if isinstance(t, Arrow):
+                acc = acc + [t.type_in]
+                t = t.type_out
+            else:
+                break
+    rank, state = {}, {}
+
+    def visit(k):
+        if state.get(k) == 1:
+            raise Infinite()
+        if k in rank:
+            return rank[k]
+        state[k] = 1
+        r = 0
+        for m in edges[k]:
+            r = max(r, visit(m) + 1)
+        state[k] = 2
+        rank[k] = r
+        return r
+    try:
+        for k in list(edges):
+            visit(k)
+    except Infinite:
+        return None
+    return [[wires[k], r] for k, r in sorted(rank.items()) if r > 0]
+
+
+_OPEN = []
+
+
+def open_findings():
+    """ids of the open known findings (a finding is only attached to a failure once the integrator has
+    registered it; until then the symptom stays an inconclusive, tagged time-out)"""
+    if not _OPEN:
+        path = os.path.join(os.path.dirname(os.path.dirname(os.path.abspath(__file__))), "known_findings.json")
+        try:
+            _OPEN.append({k["id"] for k in json.load(open(path))["findings"] if k.get("status") == "open"})
+        except Exception:
+            _OPEN.append(set())
+    return _OPEN[0]
+
+
 # ----------------------------------------------------------------------------- variants
 _VARIANT = {}
 
@@ -859,9 +924,23 @@ def check_single(case, M, rng):
         return _result(case, key, tags + ["too-large"], [])
     prim_objs = {(p.primitive, W.repo_tt(p.type)): p for p in dsl.list_primitives}
     # ---- implementation
+    ranked = None
+    if kind == "atmost":
+        # hypothesis of C13_atmost_total_partial: a ranking of the types, checked by the Lean predicate
+        rk = uncounted_ranking(dsl, spec["name"])
+        ranked = rk is not None and M.ask([Sym("c13.ranked"), dsl_wire(dsl, forb), spec["name"], rk]) == "1"
+        if rk is not None and not ranked:
+            raise RuntimeError("the ranking computed by the harness is rejected by PS.T.uncountedRanked")
+        tags.append("atmost-ranked" if ranked else "atmost-unranked(C13-F9 region)")
     try:
         g = limited(IMPL_LIMIT, lambda: build_impl(dsl, tr, spec, ng))
     except ImplTimeout:
+        if kind == "atmost" and not ranked and "C13-F9" in open_findings():
+            # termination is what the statement presupposes: the language is finite (the oracle enumerated it)
+            return _result(case, key, tags + ["timeout"], [{
+                "kind": "oracle", "what": "the constructor does not return although the language is finite",
+                "detail": f"at_most_k(.., {spec['name']!r}, {spec['k']}) cut after {IMPL_LIMIT} s; the language has {len(members)} programs",
+                "finding": "C13-F9"}])
         return _result(case, key, tags + ["timeout", "timeout-constructor(finite language)"], [])
     except RecursionError:
         return _result(case, key, tags + ["timeout", "recursion-constructor"], [])
